@@ -1293,6 +1293,45 @@ impl Run {
                     }
                 }
             }
+            // honest contributions that went through the buffer (sent before the open message existed) must be rows
+            // now that it exists - unless the party itself buffered something newer for the same entity type (the
+            // buffer keeps one signature per party and entity type)
+            if om.is_certified || om.is_expired {
+                continue;
+            }
+            let Some(ks) = &ks else { continue };
+            let was_buffered = |s: &SubRec| matches!(s.outcome, Submitted::Buffered) || (s.class.contains("/Dmq/") && s.outcome == Submitted::Registered && !s.stored);
+            // every submission made for an entity of the same TYPE (the buffer's key), whatever the beacon
+            let type_name = |k: &str| k.split('(').next().unwrap_or("").to_string();
+            let this_type = type_name(&tkey(&t));
+            let same_type: Vec<SubRec> = self.obs.subs.iter().filter(|(k, _)| type_name(k) == this_type).flat_map(|(_, v)| v.iter().cloned()).collect();
+            for s in subs.iter().filter(|s| s.honest && was_buffered(s) && s.signed_text == message) {
+                if !self.model.verifies_for_party(ks, s.by, &s.sig, &message) {
+                    continue;
+                }
+                let later_same_slot: Vec<&SubRec> = same_type.iter().filter(|r| r.label == s.label && r.op_index > s.op_index && was_buffered(r)).collect();
+                if later_same_slot.iter().any(|r| r.by == s.by) {
+                    // superseded by the party's own newer buffered signature
+                    continue;
+                }
+                let row = om.single_signatures.iter().find(|r| r.party_id == s.label);
+                let fine = row.is_some_and(|r| self.model.verifies_for_party(ks, s.by, r, &message));
+                if !fine {
+                    let displaced = !later_same_slot.is_empty();
+                    let key = if displaced { "honest-buffered-contribution-displaced" } else { "honest-buffered-contribution-lost" };
+                    let what = format!(
+                        "{t:?}: {} sent its own valid signature of this message before the open message existed (op #{}, acknowledged); the open message exists now and its row {}{}",
+                        s.label,
+                        s.op_index,
+                        if row.is_some() { "holds something else" } else { "does not exist" },
+                        if displaced { format!("; a later buffered submission under its name by party #{} took its place in the buffer", later_same_slot[0].by) } else { String::new() }
+                    );
+                    if self.violate(key, what) {
+                        return;
+                    }
+                }
+                self.label("honest-buffered-contribution-handed-over");
+            }
         }
     }
 
